@@ -101,6 +101,16 @@ let eq_matrix (vs : value list) : string =
   String.concat "" (List.concat_map (fun a -> List.map (fun b ->
       match veq a b with Some true -> "t" | Some false -> "f" | None -> "u") vs) vs)
 
+(* the same observations computed by the Model's observers on the representation *)
+let m_coercions (hp : heap) (h : handle) : string =
+  let (m, e) = m_to_dbl hp h in
+  String.concat "," [ (if m_to_bool hp h then "1" else "0"); oz (m_to_int hp h); oz (m_to_uint hp h); oz (m_to_i64 hp h);
+                      oz (m_to_u64 hp h); "d" ^ dec_of_z m ^ "_" ^ dec_of_z e; hex_of_bytes (m_to_str hp h) ]
+
+let m_eq_matrix (hp : heap) (hs : handle list) : string =
+  String.concat "" (List.concat_map (fun a -> List.map (fun b ->
+      match meq_top hp a b with Some true -> "t" | Some false -> "f" | None -> "u") hs) hs)
+
 let outcome_str o = match o with Done -> "done" | NoPath -> "nopath" | NoSrc -> "nosrc" | BadVar -> "badvar"
 
 let observable (res : string) (vs : value list) : string =
@@ -132,6 +142,12 @@ let shape (s : state) : string =
   let per_var = List.map go s.vars in
   String.concat " " per_var ^ " live=" ^ string_of_int (int_of_nat (live_blocks s.hp))
 
+let m_observable (res : string) (st : state) (vs : value list) : string =
+  Printf.sprintf "%s | %s | %s | %s" res
+    (String.concat " " (List.map2 (fun h v -> dec_of_z (m_type st.hp h) ^ ":" ^ dump v) st.vars vs))
+    (String.concat " " (List.map (m_coercions st.hp) st.vars))
+    (m_eq_matrix st.hp st.vars)
+
 let values_of_state (s : state) : value list =
   List.map (fun o -> match o with Some v -> v | None -> failwith "model: abs failed (dangling handle or fuel)") (abs_vars s)
 
@@ -144,17 +160,15 @@ let () =
          let o = parse_op toks in
          let vs = values_of_state st in
          if self_containing vs o then begin
-           emit (observable "excluded" vs ^ " | " ^ shape st); st
+           emit (m_observable "excluded" st vs ^ " | " ^ shape st); st
          end else
            match mstep st o with
            | Some (st', out) ->
-             emit (observable (outcome_str out) (values_of_state st') ^ " | " ^ shape st'); st'
+             emit (m_observable (outcome_str out) st' (values_of_state st') ^ " | " ^ shape st'); st'
            | None -> emit "modelerror"; st)
       (fun st ->
          (* destroy every variable: every block must be freed *)
-         let h = List.fold_left (fun acc v -> match acc with
-             | Some hp -> release_top hp v | None -> None) (Some st.hp) st.vars in
-         match h with
+         match destroy_all st with
          | Some hp -> emit (Printf.sprintf "end leak=%d" (if int_of_nat (live_blocks hp) = 0 then 0 else 1))
          | None -> emit "end modelerror")
   else
